@@ -5,7 +5,8 @@
 //!   c14 join <base> <item>          `LocalDestination::path` = `Path::join`, lexically resolved; `in` / `out` of base
 //!   c14 hostile <kind> <name-hex>   snapshot whose tree holds a file node with a hostile name (crafted through a
 //!        `ReadSource` whose node name differs from its path); restore into dest with sentinels around it.
-//!        observation: `refused` (restore returns an error and nothing is written) or `restored`.
+//!        observation: `refused` (restore returns an error and nothing is written) or `restored`.  Kind `nested`: the name is
+//!        given to a file node inside a plain directory `sub` (path `sub/<name>`: the `..` is not the first component).
 //!   c14 tree <seed>                 random tree × random mutation of the destination × options; oracle only.
 //!   c14 walk <delete> <dry> <dst> <nodes>   the merge-walk of `collect_and_prepare`: dst = `K:path,…` (d dir, f file with
 //!        other content, F file with the snapshot's content, l dangling symlink), nodes = `K:path,…` (d dir, f file, s symlink),
@@ -103,6 +104,8 @@ struct HostileSource {
     name: Vec<u8>,
     content: Vec<u8>,
     as_dir: bool,
+    /// the hostile name is given to a file node INSIDE a plain directory `sub` (so it is not the first component of the path)
+    nested: bool,
 }
 
 fn meta(size: u64) -> Metadata {
@@ -135,7 +138,13 @@ impl ReadSource for HostileSource {
         root.meta.mode = Some(0o755);
         v.push(Ok(ReadSourceEntry { path: PathBuf::from(SRC_ROOT), node: root, open: None }));
         let name = OsString::from_vec(self.name.clone());
-        if self.as_dir {
+        if self.nested {
+            let mut d = Node::new_node(std::ffi::OsStr::new("sub"), NodeType::Dir, meta(0));
+            d.meta.mode = Some(0o755);
+            v.push(Ok(ReadSourceEntry { path: PathBuf::from(SRC_ROOT).join("sub"), node: d, open: None }));
+            let f = Node::new_node(&name, NodeType::File, meta(self.content.len() as u64));
+            v.push(Ok(ReadSourceEntry { path: PathBuf::from(SRC_ROOT).join("sub").join("x"), node: f, open: Some(Cursor::new(self.content.clone())) }));
+        } else if self.as_dir {
             let mut d = Node::new_node(&name, NodeType::Dir, meta(0));
             d.meta.mode = Some(0o755);
             v.push(Ok(ReadSourceEntry { path: PathBuf::from(SRC_ROOT).join("x"), node: d, open: None }));
@@ -189,7 +198,7 @@ fn hostile(kind: &str, name: &[u8]) -> String {
     } else {
         name.to_vec()
     };
-    let src = HostileSource { name, content: b"EVIL".to_vec(), as_dir: kind == "dir" };
+    let src = HostileSource { name, content: b"EVIL".to_vec(), as_dir: kind == "dir", nested: kind == "nested" };
     let Ok((h, _)) = RepoHandle::init(MemBackend::new(), None, &ConfigOptions::default()) else { return "err:init".into() };
     let Ok(repo) = h.open().and_then(Repository::to_indexed_ids) else { return "err:open".into() };
     let Ok(snap) = repo.archive(&BackupOptions::default(), &src, SnapshotFile::default(), &[PathBuf::from(SRC_ROOT)]) else {
@@ -214,7 +223,8 @@ fn hostile(kind: &str, name: &[u8]) -> String {
     }
     match res {
         Err(_) => {
-            if after.keys().any(|k| inside(k) && k != "mid/dest/") {
+            // `nested`: the plain directory `sub` precedes the hostile node in the stream and may exist already (inside the destination)
+            if after.keys().any(|k| inside(k) && k != "mid/dest/" && !(kind == "nested" && k == "mid/dest/sub/")) {
                 "refused-after-writing".into()
             } else {
                 "refused".into()
@@ -232,11 +242,12 @@ fn tree_case(seed: u64) -> String {
     for i in 0..nfiles {
         let len = *rng.pick(&[0usize, 1, 50, 5000, 40_000]);
         let mut content = rng.bytes(len);
-        if rng.chance(1, 4) {
-            // zero runs (sparse candidates)
-            for b in content.iter_mut().take(len / 2) {
-                *b = 0;
-            }
+        match rng.below(8) {
+            // zero runs (sparse candidates): first half, last half, the whole file (a preallocated / zero-filled file)
+            0 | 1 => content.iter_mut().take(len / 2).for_each(|b| *b = 0),
+            2 => content.iter_mut().skip(len / 2).for_each(|b| *b = 0),
+            3 | 4 => content.iter_mut().for_each(|b| *b = 0),
+            _ => {}
         }
         let path: Vec<Vec<u8>> = match rng.below(3) {
             0 => vec![format!("f{i}").into_bytes()],
@@ -475,10 +486,58 @@ fn walk_case(delete: bool, dry: bool, dst: &str, nodes: &str) -> String {
         .collect();
     lst.sort();
     let lst = if lst.is_empty() { "-".to_string() } else { lst.into_iter().map(|x| x.1).collect::<Vec<_>>().join(",") };
-    format!(
+    let obs = format!(
         "ok {},{},{},{},{}/{},{},{} {lst}",
         st.files.restore, st.files.unchanged, st.files.verified, st.files.modify, st.files.additional, st.dirs.restore, st.dirs.modify, st.dirs.additional
-    )
+    );
+    // Direct oracles.  (1) A destination entry that IS a snapshot path of the same type (directory / regular file) is not an
+    // "additional" entry: `prepare_restore` must never remove it, with or without `--delete`.
+    let kind_now = |p: &str| -> Option<char> {
+        let m = std::fs::symlink_metadata(dest.join(p)).ok()?;
+        Some(if m.is_dir() { 'd' } else if m.is_file() { 'f' } else { 'l' })
+    };
+    let same_type = |dk: char, nk: char| (dk == 'd' && nk == 'd') || ((dk == 'f' || dk == 'F') && nk == 'f');
+    for (nk, p) in &ns {
+        if let Some((dk, _)) = ds.iter().find(|(_, q)| q == p) {
+            if same_type(*dk, *nk) && kind_now(p) != Some(*nk) {
+                return "oracle-fail:prepare-restore-removed-a-snapshot-path".into();
+            }
+        }
+    }
+    // (2) The full restore: afterwards every snapshot path holds exactly the snapshot's content.  Run when the restore is
+    // expected to succeed: not a dry run, and either `--delete` (entries of another type are replaced) or no destination
+    // entry of another type than the node at its path (without `--delete` those stay and the outcome is not a plain restore).
+    let clean = ds.iter().all(|(dk, q)| ns.iter().find(|(_, p)| p == q).is_none_or(|(nk, _)| same_type(*dk, *nk)));
+    if !dry && (delete || clean) {
+        let Ok(ls) = repo.ls(&node, &LsOptions::default()) else { return "err:ls".into() };
+        if repo.restore(plan, &opts_of(true, false, delete), ls, &d).is_err() {
+            return "oracle-fail:restore-fails-after-prepare".into();
+        }
+        for (nk, p) in &ns {
+            let ok = match nk {
+                'd' => kind_now(p) == Some('d'),
+                'f' => kind_now(p) == Some('f') && std::fs::read(dest.join(p)).ok() == Some(w_content(p)),
+                _ => kind_now(p) == Some('l') && std::fs::read_link(dest.join(p)).ok() == Some(PathBuf::from("elsewhere")),
+            };
+            if !ok {
+                return format!("oracle-fail:snapshot-path-wrong-after-restore:{}{}", nk, if delete { ":delete" } else { "" });
+            }
+        }
+        // extra entries (no node at their path, not below a removed / replaced entry) survive without `--delete` and are gone with it
+        for (_, q) in &ds {
+            let is_node = ns.iter().any(|(_, p)| p == q);
+            let below_node_nondir = ns.iter().any(|(nk, p)| *nk != 'd' && q.starts_with(&format!("{p}/")));
+            if !is_node && !below_node_nondir {
+                if delete && kind_now(q).is_some() {
+                    return "oracle-fail:extra-entry-survives-delete".into();
+                }
+                if !delete && kind_now(q).is_none() {
+                    return "oracle-fail:extra-entry-removed-without-delete".into();
+                }
+            }
+        }
+    }
+    obs
 }
 
 /// Destination entries of another type than the snapshot's, full restore.
@@ -645,7 +704,8 @@ pub fn exec(t: &[&str]) -> String {
         }
         ["hostile", kind, name] => {
             let Some(n) = unhex(name) else { return "bad-op".into() };
-            if !["file", "dir", "abs"].contains(kind) || n.is_empty() || n.contains(&0) {
+            // `nested` names must be relative (an absolute one would be written to, outside the sandbox, if it were accepted)
+            if !["file", "dir", "abs", "nested"].contains(kind) || n.is_empty() || n.contains(&0) || (*kind == "nested" && n[0] == b'/') {
                 return "bad-op".into();
             }
             hostile(kind, &n)
@@ -759,7 +819,7 @@ fn gen_walk(rng: &mut Rng, prefix: &str, depth: usize, side: u8, ds: &mut Vec<St
 }
 
 pub fn generate(thorough: bool, rng: &mut Rng, ops: &mut Vec<String>, stats: &mut Stats) {
-    let n_file = if thorough { 1500 } else { 120 };
+    let n_file = if thorough { 4000 } else { 120 };
     for _ in 0..n_file {
         let chunk = *rng.pick(&[4usize, 8, 16]);
         let nblobs = rng.below(5) as usize;
@@ -831,6 +891,56 @@ pub fn generate(thorough: bool, rng: &mut Rng, ops: &mut Vec<String>, stats: &mu
             u8::from(m)
         ));
     }
+    // zero-block grid (sparse restore): all-zero files and files whose first / last / only blocks are zero (Z = zero blob,
+    // N = non-zero blob, z / n = short tail) × sparse on/off × destination {absent, empty, shorter, longer, same size with
+    // other content, same size all zero}; verify / mtime-equal random (an accepted-unread file needs same size + mtime)
+    let pats: &[&str] = if thorough { &["Z", "z", "ZZ", "ZZZ", "Zz", "ZZz", "ZN", "NZ", "ZNZ", "NZN", "NZz", "Zn", "ZZn", "NNZ", "ZNN"] } else { &["Z", "z", "ZZZ", "Zz", "ZN", "NZ", "ZNZ", "NZz", "Zn"] };
+    let reps = if thorough { 10 } else { 1 };
+    for _ in 0..reps {
+        for pat in pats {
+            for dst in 0..6 {
+                for sparse in [true, false] {
+                    let chunk = *rng.pick(&[4usize, 8, 16]);
+                    let mut content = Vec::new();
+                    for c in pat.bytes() {
+                        let l = if c.is_ascii_uppercase() { chunk } else { 1 + rng.below(chunk as u64 - 1) as usize };
+                        if c.eq_ignore_ascii_case(&b'z') {
+                            content.extend(std::iter::repeat(0u8).take(l));
+                        } else {
+                            // non-zero blob: no zero byte at all
+                            content.extend(rng.bytes(l).into_iter().map(|b| b | 1));
+                        }
+                    }
+                    let len = content.len();
+                    let (alt, extra) = (rng.chance(1, 2), 1 + rng.below(9) as usize);
+                    let old = match dst {
+                        0 => None,
+                        1 => Some(vec![]),
+                        2 => Some(if alt { vec![0xff; len.div_ceil(2).min(len - 1)] } else { content[..len - 1].to_vec() }),
+                        3 => Some(if alt {
+                            vec![0xff; len + extra]
+                        } else {
+                            let mut d = content.clone();
+                            d.extend_from_slice(&rng.bytes(extra));
+                            d
+                        }),
+                        4 => Some(if alt { vec![0xff; len] } else { rng.bytes(len).into_iter().map(|b| b | 2).collect() }),
+                        _ => Some(vec![0; len]),
+                    };
+                    let (v, m) = (rng.chance(1, 2), rng.chance(1, 3));
+                    stats.hit(format!("zero-grid.{}.dst{dst}.s{}", if pat.bytes().all(|c| c.eq_ignore_ascii_case(&b'z')) { "all-zero" } else { "mixed" }, u8::from(sparse)));
+                    ops.push(format!(
+                        "c14 file {chunk} {} {} {} {} {}",
+                        hex(&content),
+                        old.map_or("~".to_string(), |o| hex(&o)),
+                        u8::from(v),
+                        u8::from(sparse),
+                        u8::from(m)
+                    ));
+                }
+            }
+        }
+    }
     let items: [&[u8]; 14] = [b"a", b"a/b", b"..", b"../x", b"a/../..", b"a/../../x", b"/etc/passwd", b"/", b"./a", b"a/..", b"...", b"..a", b"a//b", b""];
     for it in items {
         for base in [&b"/t/dest"[..], b"/t/dest/", b"/"] {
@@ -838,13 +948,15 @@ pub fn generate(thorough: bool, rng: &mut Rng, ops: &mut Vec<String>, stats: &mu
             ops.push(format!("c14 join {} {}", hex(base), hex(it)));
         }
     }
-    for (kind, name) in [("file", &b"../evil"[..]), ("file", b".."), ("file", b"../../outer_evil"), ("dir", b".."), ("dir", b"../up"), ("abs", b"evil_abs"), ("file", b"a/b"), ("file", b"plain"), ("file", b"."), ("dir", b"plain_dir")] {
+    for (kind, name) in [("file", &b"../evil"[..]), ("file", b".."), ("file", b"../../outer_evil"), ("dir", b".."), ("dir", b"../up"), ("abs", b"evil_abs"), ("file", b"a/b"), ("file", b"plain"), ("file", b"."), ("dir", b"plain_dir"),
+        // `..` that is not the first component of the path and climbs above its depth / stays inside / plain
+        ("nested", b"../../escaped"), ("nested", b"../../../escaped3"), ("nested", b"../inside"), ("nested", b"a/../../../x"), ("nested", b"plain"), ("nested", b"..")] {
         stats.hit(format!("hostile.{kind}"));
         ops.push(format!("c14 hostile {kind} {}", hex(name)));
     }
     // merge-walk: snapshot and destination derived from one random tree; names chosen so that component-wise order
     // ([a, x] < [a.b]) differs from the order of the joined strings ("a.b" < "a/x")
-    let n_walk = if thorough { 2500 } else { 250 };
+    let n_walk = if thorough { 6000 } else { 250 };
     for _ in 0..n_walk {
         let (mut ds, mut ns) = (Vec::new(), Vec::new());
         gen_walk(rng, "", 0, 0, &mut ds, &mut ns, stats);
@@ -854,7 +966,7 @@ pub fn generate(thorough: bool, rng: &mut Rng, ops: &mut Vec<String>, stats: &mu
         ops.push(format!("c14 walk {} {} {} {}", u8::from(del), u8::from(dry), j(&ds), j(&ns)));
     }
     // RestorePlan: to_packs of the plan vs the packs the restore reads
-    let n_plan = if thorough { 800 } else { 80 };
+    let n_plan = if thorough { 2500 } else { 80 };
     for _ in 0..n_plan {
         let letters = b"abcdefgh";
         let nb = 1 + rng.below(3) as usize;
@@ -912,7 +1024,7 @@ pub fn generate(thorough: bool, rng: &mut Rng, ops: &mut Vec<String>, stats: &mu
         stats.hit(format!("typed.{k}"));
         ops.push(format!("c14 typed {k} {d}"));
     }
-    let n_tree = if thorough { 600 } else { 60 };
+    let n_tree = if thorough { 2000 } else { 60 };
     for _ in 0..n_tree {
         stats.hit("tree");
         ops.push(format!("c14 tree {}", rng.below(1 << 32)));
